@@ -77,7 +77,7 @@ TEXT = {
         'design_ref': 'DESIGN.md §4 C16',
     },
     'C05': {
-        'text': 'Partial: length exactness and refusals. Verus proves, for all parameters, that the declared proof/verifier/randomness lengths of Histogram, SumVec, MultihotCountVec, L1BoundSum and Sum equal what prove/query construct (arity + gadget_poly_len(degree, wire_poly_len(calls)), 1 + sum(arity+1), sum of arities), using the real helper functions of flp.rs. Kani proves on the real provided methods Flp::query/decide, instantiated with a harness-defined circuit, that query refuses any randomness r with r^wire_poly_len(calls) == 1 before a gadget polynomial is evaluated (gadget call counts 1,2,3,4,8; every r), that wrong lengths are refused before the guard, and the decision rule of decide().',
+        'text': 'Partial: length exactness, refusals and the gadget-polynomial construction. Verus proves on the extracted gadgets (Mul, ParallelSum over an abstract inner gadget, the two gadget checks) that eval_poly yields the gadget applied point by point to the wire-polynomial values (Mul, via the proved contract of poly_mul_lagrange) and the in-order sum over every chunk (ParallelSum), for any number of calls and chunks. Verus proves, for all parameters, that the declared proof/verifier/randomness lengths of Histogram, SumVec, MultihotCountVec, L1BoundSum and Sum equal what prove/query construct (arity + gadget_poly_len(degree, wire_poly_len(calls)), 1 + sum(arity+1), sum of arities), using the real helper functions of flp.rs. Kani proves on the real provided methods Flp::query/decide, instantiated with a harness-defined circuit, that query refuses any randomness r with r^wire_poly_len(calls) == 1 before a gadget polynomial is evaluated (gadget call counts 1,2,3,4,8; every r), that wrong lengths are refused before the guard, and the decision rule of decide().',
         'note': 'Completeness, soundness and share-linearity are polynomial-identity statements over NTT/Lagrange code: not decided by this family here (DESIGN.md §4 C05/C10). Field multiplication is seen through its contract (memoised stub), so a CBMC model of a refusal failure is replayed through the executable oracle replay/flp_oracle.rs on the shipped circuits.',
         'technique': 'postconditions on extracted length accessors against spec functions (Verus) + guard contracts on the real generic provided methods over a harness-defined circuit (Kani)',
         'design_ref': 'DESIGN.md §4 C05',
